@@ -179,3 +179,86 @@ impl HistogramFn for LogHandle {
         self.push(Op::HistRecord(value.to_bits()));
     }
 }
+
+// ---------------------------------------------------------------- generated recorder calls
+//
+// A `RecCall` is one call of the `Recorder` trait with generated arguments (every kind, units present or
+// absent, descriptions including the empty one, names including the empty and non-ASCII ones, 0-3 labels,
+// several levels/targets) followed by updates through the returned handle. Applying the same calls to two
+// recorders and comparing what their doubles logged is a differential oracle for anything that claims to
+// pass calls through unchanged.
+
+#[derive(Debug, Clone)]
+pub enum RecCall {
+    Describe { kind: char, name: String, unit: Option<Unit>, desc: String },
+    Register { kind: char, name: String, labels: Vec<(String, String)>, meta: usize, updates: Vec<(u8, u64)> },
+}
+
+pub static CALL_METAS: [Metadata<'static>; 3] = [
+    Metadata::new("tgt_a", Level::INFO, Some("mod_a")),
+    Metadata::new("tgt_b", Level::TRACE, None),
+    Metadata::new("", Level::ERROR, Some("")),
+];
+
+pub fn decode_call(src: &mut crate::engine::source::Source) -> RecCall {
+    const NAMES: [&str; 6] = ["m", "", "é.x", "requests_total", "a b", "m2"];
+    const STRS: [&str; 5] = ["", "v", "é", "long description with spaces", "k"];
+    let kind = *src.pick(&['c', 'g', 'h']);
+    let name = src.pick(&NAMES).to_string();
+    if src.chance(100) {
+        RecCall::Describe { kind, name, unit: if src.bool() { Some(*src.pick(&[Unit::Count, Unit::Bytes, Unit::Seconds, Unit::Percent])) } else { None }, desc: src.pick(&STRS).to_string() }
+    } else {
+        let labels = (0..src.below(4)).map(|_| (src.pick(&STRS).to_string(), src.pick(&STRS).to_string())).collect();
+        let updates = (0..src.below(4)).map(|_| (src.below(3) as u8, *src.pick(&[0u64, 1, 7, u64::MAX, 0x3ff8_0000_0000_0000, 0x7ff8_0000_0000_0000, 0xfff0_0000_0000_0000]))).collect();
+        RecCall::Register { kind, name, labels, meta: src.below(3), updates }
+    }
+}
+
+impl RecCall {
+    pub fn apply(&self, rec: &dyn Recorder) {
+        match self {
+            RecCall::Describe { kind, name, unit, desc } => match kind {
+                'c' => rec.describe_counter(name.clone().into(), *unit, desc.clone().into()),
+                'g' => rec.describe_gauge(name.clone().into(), *unit, desc.clone().into()),
+                _ => rec.describe_histogram(name.clone().into(), *unit, desc.clone().into()),
+            },
+            RecCall::Register { kind, name, labels, meta, updates } => {
+                let key = Key::from_parts(name.clone(), labels.iter().map(|(k, v)| metrics::Label::new(k.clone(), v.clone())).collect::<Vec<_>>());
+                let m = &CALL_METAS[*meta];
+                match kind {
+                    'c' => {
+                        let h = rec.register_counter(&key, m);
+                        for (op, v) in updates {
+                            if *op == 0 {
+                                h.increment(*v)
+                            } else {
+                                h.absolute(*v)
+                            }
+                        }
+                    }
+                    'g' => {
+                        let h = rec.register_gauge(&key, m);
+                        for (op, v) in updates {
+                            match op {
+                                0 => h.increment(f64::from_bits(*v)),
+                                1 => h.decrement(f64::from_bits(*v)),
+                                _ => h.set(f64::from_bits(*v)),
+                            }
+                        }
+                    }
+                    _ => {
+                        let h = rec.register_histogram(&key, m);
+                        for (_, v) in updates {
+                            h.record(f64::from_bits(*v))
+                        }
+                    }
+                }
+            }
+        }
+    }
+}
+
+/// What a double logged, without the parts that legitimately differ between two recorders.
+pub fn ops_of(log: &Log) -> Vec<(Option<String>, Op)> {
+    log.lock().unwrap().iter().map(|e| (e.key.clone(), e.op.clone())).collect()
+}
